@@ -128,3 +128,15 @@ def coap_expected(idx, item):
     if (c >> 1) & 7 != 1:
         return ("status", 257)
     return ("body", bytes(b))
+
+
+# ---------------------------------------------------------------- BLE: a deterministic demo accessory
+def demo_answer(op, tid, iid, body):
+    """Specification of the demo accessory (independent implementation; the Coq model has its own, `demo_responder`):
+    status (op + iid + tid) mod 7; response body = request body reversed; the first fragment carries iid mod 5 body
+    bytes, every continuation 1 + tid mod 7 bytes.  Returns (control, status, body, pieces)."""
+    out = bytes(reversed(bytes(body)))
+    k = iid % 5
+    step = 1 + tid % 7
+    pieces = [out[:k]] + [out[i:i + step] for i in range(k, len(out), step)]
+    return 2, (op + iid + tid) % 7, out, pieces
